@@ -65,6 +65,14 @@ def label(ctx, events, consts=None):
     return res
 
 
+def classes_of(ctx, events):
+    """labels of rejected events: the parts that differ, or `ext-stat-swap` if the stat-order slip of decode::stat (Bug_ExtStatSwap
+    in IndexFormat.tla) explains the whole difference"""
+    why = label(ctx, events)
+    swap = label(ctx, events, consts={"Bug_ExtStatSwap": "TRUE"}) if any(w == ["untr"] for w in why) else [None] * len(events)
+    return [["ext-stat-swap"] if (w == ["untr"] and s == []) else w for w, s in zip(why, swap)]
+
+
 def clean(ev):
     return {k: v for k, v in ev.items() if not k.startswith("_")}
 
@@ -140,17 +148,15 @@ def run(ctx):
     rej = ctx.tlc_trace("index", "IndexFormat_Trace", [clean(e) for e in events], timeout=3000, xmx="8g")
     ctx.log("binding A/B: %d index files (%d written by git, %d rendered by the specification) x thread limits 1..16, %d rejected"
             % (len(events), n_git, len(events) - n_git, len(rej)))
-    why = label(ctx, [events[i] for i in rej])
-    # which of the rejections does the stat-order slip explain completely?
-    swap = label(ctx, [events[i] for i in rej], consts={"Bug_ExtStatSwap": "TRUE"}) if rej else []
+    why = classes_of(ctx, [events[i] for i in rej])
     counts = collections.Counter()
-    for i, w, s in zip(rej, why, swap):
+    for i, w in zip(rej, why):
         src, meta = files[i]
         if "spec-cannot-read" in w or "spec-stitch" in w:
             if i < n_git:
                 audit_mismatch(ctx, "IndexFormat.Decode cannot read a file git wrote", {"features": meta["features"], "why": w})
             raise ToolError("the reference reader cannot read a file it rendered itself: %s" % w)
-        classes = ["ext-stat-swap"] if (w == ["untr"] and s == []) else w
+        classes = w
         counts["+".join(classes)] += 1
         case = {"features": meta["features"], "threads": THREADS}
         case["bytes"] = events[i]["bytes"]
@@ -227,4 +233,4 @@ def replay(ctx, rec):
         return
     ev = decode_events(ctx, binary, [(c["bytes"], {})])[0]
     if ctx.tlc_trace("index", "IndexFormat_Trace", [clean(ev)]):
-        ctx.violation({"kind": rec.get("kind"), "case": c, "classes": label(ctx, [ev])[0]})
+        ctx.violation({"kind": rec.get("kind"), "case": c, "classes": classes_of(ctx, [ev])[0]})
